@@ -324,6 +324,22 @@ func (g *G) genAssets() {
 		s.Channels = append(s.Channels, c)
 	}
 
+	if g.P.Voice {
+		// a workspace that runs voice flows usually has a channel that can call
+		canCall := false
+		for _, c := range s.Channels {
+			for _, r := range c.Roles {
+				if r == "call" {
+					canCall = true
+				}
+			}
+		}
+		if !canCall && t.Chance("add_calling_channel", 3, 4) {
+			c := chPool[0]
+			c.UUID = g.uuid(kChannel)
+			s.Channels = append(s.Channels, c)
+		}
+	}
 	nf := t.Weighted("nfields", 1, 2, 3, 3, 2, 2, 1, 1)
 	for i := 0; i < nf; i++ {
 		f := fieldPool[(i+t.Pick("fieldoff", len(fieldPool)))%len(fieldPool)]
